@@ -11,3 +11,13 @@ import "time"
 func VerifScheduleActive(start, end string, weekdays []time.Weekday, dates []string, t time.Time) (bool, error) {
 	return newSchedule(start, end, weekdays, dates).activeForTime(t)
 }
+
+// VerifCobsDecodeInplace runs cobsDecodeInplace on a copy of b and returns the decoded bytes.
+func VerifCobsDecodeInplace(b []byte) ([]byte, error) {
+	c := append([]byte(nil), b...)
+	n, err := cobsDecodeInplace(c)
+	if err != nil {
+		return nil, err
+	}
+	return c[:n], nil
+}
